@@ -61,7 +61,7 @@ type PkgConfig struct {
 	Ffi string
 }
 
-func getFfi(pkg *packages.Package) string {
+func getFfi(pkg *packages.Package) (string, error) {
 	seenFfis := make(map[string]struct{})
 	packages.Visit([]*packages.Package{pkg},
 		func(pkg *packages.Package) bool {
@@ -80,20 +80,34 @@ func getFfi(pkg *packages.Package) string {
 	)
 
 	if len(seenFfis) > 1 {
-		panic(fmt.Sprintf("multiple ffis used %v", seenFfis))
+		return "", fmt.Errorf("multiple ffis used %v", seenFfis)
 	}
 	for ffi := range seenFfis {
-		return ffi
+		return ffi, nil
 	}
-	return "none"
+	return "none", nil
 }
 
 // NewPkgCtx initializes a context based on a properly loaded package
 func NewPkgCtx(pkg *packages.Package, tr TranslationConfig) Ctx {
+	ctx, err := newPkgCtx(pkg, tr)
+	if err != nil {
+		panic(err.Error())
+	}
+	return ctx
+}
+
+// newPkgCtx is NewPkgCtx, reporting a package that uses more than one FFI as
+// an error
+func newPkgCtx(pkg *packages.Package, tr TranslationConfig) (Ctx, error) {
 	// Figure out which FFI we're using
+	ffi, err := getFfi(pkg)
+	if err != nil {
+		return Ctx{}, err
+	}
 	config := PkgConfig{
 		TranslationConfig: tr,
-		Ffi:               getFfi(pkg),
+		Ffi:               ffi,
 	}
 
 	return Ctx{
@@ -103,7 +117,7 @@ func NewPkgCtx(pkg *packages.Package, tr TranslationConfig) Ctx {
 		pkgPath:       pkg.PkgPath,
 		errorReporter: newErrorReporter(pkg.Fset),
 		PkgConfig:     config,
-	}
+	}, nil
 }
 
 // NewCtx loads a context for files passed directly,
